@@ -71,12 +71,14 @@ theorem segments_of_TR (pre out0 : List Nat) (list : List Sym) (body cw : List N
     (sE : St) (segs : List Seg)
     (hsym : firstBigEnough list sE.cw.length = some sym)
     (hpad : addPadding sE.cw (sE.mode == .ascii) (dataCw sym) = some cw)
-    (miE : MI pre out0 list body sE) (hmf : sE.hasMore = false) (tr : TR pre out0 list body plan sE segs) :
+    (miE : MI false pre out0 list body sE) (hmf : sE.hasMore = false) (tr : TR pre out0 list body plan sE segs) :
     ∃ pads, SegmentsOK pre out0 body cw plan segs pads := by
   -- the padding
   have hpads : ∃ pads, cw = sE.cw ++ pads ∧ NiceTail pads ∧ (ExactFit list sE.cw.length → pads = []) := by
     cases miE.phase with
     | endgame more _ _ _ _ _ _ => rw [hmf] at more; cases more
+    | ediAscii he _ _ _ _ _ _ _ _ => cases he
+    | final he _ _ _ _ _ => cases he
     | done _ _ _ fit =>
       obtain ⟨S, f1, f2⟩ := fit
       rw [f1] at hsym
@@ -131,9 +133,10 @@ theorem segments_of_TR (pre out0 : List Nat) (list : List Sym) (body cw : List N
   simp
 
 theorem mi_init (pre out0 : List Nat) (list : List Sym) (body : List Nat) (plan : List (Nat × EMode)) (hplan : PlanOK plan) :
-    MI pre out0 list body { input := body, pos := 0, mode := .ascii, plan := plan, newMode := none, cw := pre, list := list } :=
+    MI false pre out0 list body { input := body, pos := 0, mode := .ascii, plan := plan, newMode := none, cw := pre, list := list } :=
   ⟨rfl, rfl, Nat.zero_le _, by intro c hc; simp at hc,
-    .normal (sync_init pre out0 body) (Or.inl ⟨rfl, rfl⟩) hplan (fun hne => absurd rfl hne)⟩
+    .normal (sync_init pre out0 body) (Or.inl ⟨rfl, rfl⟩) (planOKE_of_planOK body hplan) (fun hne => absurd rfl hne),
+    fun _ => ne_of_planOK hplan⟩
 
 theorem tr_init (pre out0 : List Nat) (list : List Sym) (body : List Nat) (plan : List (Nat × EMode)) :
     TR pre out0 list body plan { input := body, pos := 0, mode := .ascii, plan := plan, newMode := none, cw := pre, list := list } [] :=
@@ -151,7 +154,7 @@ theorem run_segments (pre out0 : List Nat) (list : List Sym) (body cw : List Nat
   obtain ⟨sE, hmain, hsym, hpad⟩ := run_unfoldP list pre body cw plan sym h
   have mi0 := mi_init pre out0 list body plan hplan
   have tr0 := tr_init pre out0 list body plan
-  obtain ⟨miE, hmf⟩ := mainLoop_MI pre out0 list body hb _ _ 0 sE hmain mi0
+  obtain ⟨miE, hmf⟩ := mainLoop_MI false pre out0 list body hb _ _ 0 sE hmain mi0
   obtain ⟨segs, tr⟩ := mainLoop_TR pre out0 list body hb plan _ _ 0 sE [] hmain mi0 tr0
   obtain ⟨pads, hp⟩ := segments_of_TR pre out0 list body cw plan sym sE segs hsym hpad miE hmf tr
   exact ⟨segs, pads, hp⟩
